@@ -163,6 +163,18 @@ def reexec_in_world():
         return
     home = ensure_pycode()
     env = child_env(home)
+    # every interpreter that imports andes creates a log directory with tempfile.mkdtemp: keep them out of /tmp and sweep old ones
+    tmp = os.path.join(VERIF, '.work', 'tmp')
+    os.makedirs(tmp, exist_ok=True)
+    now = time.time()
+    for n in os.listdir(tmp):
+        q = os.path.join(tmp, n)
+        try:
+            if now - os.path.getmtime(q) > 1800:
+                shutil.rmtree(q, ignore_errors=True) if os.path.isdir(q) else os.remove(q)
+        except OSError:
+            pass
+    env['TMPDIR'] = tmp
     os.execve(PY, [PY] + sys.argv, env)
 
 
